@@ -3,8 +3,9 @@
 import json, os
 HERE = os.path.dirname(os.path.dirname(os.path.abspath(__file__)))
 
-PROOF_L = ('the list differ/patcher chain (18 real functions incl. 3 lemmas: builder append, diff_from_lcs, brute-force LCS, '
-           'diff_lists, patch_list) is PROVED for all inputs from the current source by contract-based VCs (pyvc -> z3/cvc5)')
+PROOF_L = ('the list and mapping differ/patcher chains (29 real functions and lemmas: builder append, diff_from_lcs, brute-force LCS, diff_lists, '
+           'compute_diff_from_snakes, patch_list; MappingDiffBuilder, diff_dicts, patch_dict) are PROVED for all inputs from the current source by '
+           'contract-based VCs (pyvc -> z3/cvc5)')
 TRUST = ('Trusted: pyvc encoding assumptions (listed in evidence), SMT solvers, assumed contracts named in evidence, table contracts '
          'differs_ok / pred_exact as preconditions; bounded parts explore the stated small scope only and are never counted as proved.')
 TECH_MIX = 'contract-based deductive verification (AST->VC->SMT) of the real functions + bounded run-time contracts'
@@ -23,7 +24,7 @@ CLAIMS = {
         'output/mime/attachment differs, string flattening) and the nbdiff --out / nbpatch file interface are covered by a BOUNDED run-time contract with an '
         'independent implementation of the documented diff format as second oracle. Hence level other, not proof.'),
  'C02': dict(category='other', design_ref='DESIGN.md 5/C02', note=TRUST, technique=TECH_MIX,
-   text='Mixed: ' + PROOF_L + '; the dict and string differs and the type dispatchers are covered only by a BOUNDED run-time contract on the public API '
+   text='Mixed: ' + PROOF_L + '; the string differ/patcher and the type dispatchers `diff` / `patch` are covered only by a BOUNDED run-time contract on the public API '
         'against an independent implementation of the documented format. Hence level other, not proof.'),
  'C03': bounded('Run-time contract "merge_notebooks returns normally" over notebook triples x strategy tables x text-merge helpers (git / diff3 / built-in, selected via PATH).', 'DESIGN.md 5/C03'),
  'C04': bounded('Run-time contract "merged notebook validates against nbformat\'s schema file for its declared minor" (jsonschema directly, not nbformat.validate) over the C03 space incl. mixed minors.', 'DESIGN.md 5/C04'),
@@ -31,7 +32,7 @@ CLAIMS = {
  'C06': bounded('By-construction expectation: per-cell ownership, actions and non-adjacent insertions; expected notebook built without nbdime; also generic JSON dict/list cases.', 'DESIGN.md 5/C06'),
  'C07': bounded('Line-set survival/provenance contracts and the same-line-rewrite flagging contract under the default strategy for each text-merge helper.', 'DESIGN.md 5/C07'),
  'C09': bounded('Ordering (prefix_before), merge/diff schema validation, JSON round trip, apply_decisions==merged, and choose-local / choose-remote reproduction under the web tool strategy.', 'DESIGN.md 5/C09'),
- 'C10': bounded('use-x strategies (uniform and mixed merge/input/output, transients on/off) against the open merge with every conflicted decision re-labelled to the side its path selects; no-fabricated-line clause.', 'DESIGN.md 5/C10'),
+ 'C10': bounded('Frame obligations (no shared mutable default / module state behind the strategy tables, discharged syntactically on the current sources) + use-x strategies (uniform and mixed merge/input/output, transients on/off) against the open merge with every conflicted decision re-labelled to the side its path selects; no-fabricated-line clause.', 'DESIGN.md 5/C10'),
  'C11': dict(category='other', design_ref='DESIGN.md 5/C11', note=TRUST, technique=TECH_MIX,
    text='Mixed: wf_seq(result, len(a)) is a discharged postcondition of diff_from_lcs, diff_sequence_bruteforce, diff_sequence and diff_lists, and builder order of '
         'SequenceDiffBuilder.append (all inputs); deep well-formedness, schema validity and JSON round trip of every generic/notebook diff and of the diffs inside merge '
